@@ -135,6 +135,7 @@ func (sc *serverConn) Handshake() error {
 }
 
 func (sc *serverConn) Serve() error {
+	verifServerConn(sc)
 	sc.closer = make(chan struct{}, 1)
 	sc.writeStop = make(chan struct{})
 	sc.handlerDone = make(chan *Stream, 128)
@@ -363,6 +364,7 @@ func (sc *serverConn) readLoop() (err error) {
 				return errConnClosed
 			}
 
+			verifForwarded()
 			sc.reader <- fr
 			continue
 		}
@@ -375,6 +377,7 @@ func (sc *serverConn) readLoop() (err error) {
 				sc.handleSettings(st)
 				// forward to handleStreams so the INITIAL_WINDOW_SIZE delta is
 				// applied to open streams in frame order.
+				verifForwarded()
 				sc.reader <- fr
 				continue
 			}
@@ -387,6 +390,7 @@ func (sc *serverConn) readLoop() (err error) {
 			}
 
 			// the actual window bookkeeping happens in handleStreams.
+			verifForwarded()
 			sc.reader <- fr
 			continue
 		case FramePing:
@@ -472,10 +476,12 @@ func (sc *serverConn) handleStreams() {
 			// nobody will send. Whatever is behind it stays open otherwise.
 			_ = strm.ctx.Response.CloseBodyStream()
 
+			verifRelease("requestCtx", strm.ctx)
 			ctxPool.Put(strm.ctx)
 			strm.ctx = nil
 		}
 
+		verifRelease("stream", strm)
 		streamPool.Put(strm)
 	}
 
@@ -523,6 +529,7 @@ func (sc *serverConn) handleStreams() {
 	}
 
 	defer releaseHandled()
+	defer verifLoopExit()
 
 	// Handlers that are still running when the loop stops have nowhere to
 	// report back to, and would otherwise park on handlerDone for good.
@@ -555,6 +562,7 @@ func (sc *serverConn) handleStreams() {
 loop:
 	for {
 		releaseHandled()
+		verifLoopTop(len(strms), openStreams, len(closedRing), verifHeldBytes(strms))
 
 		select {
 		case <-sc.closer:
@@ -1030,6 +1038,7 @@ var ctxPool = sync.Pool{
 
 func (sc *serverConn) createStream(c net.Conn, frameType FrameType, strm *Stream) {
 	ctx := ctxPool.Get().(*fasthttp.RequestCtx)
+	verifAcquire("requestCtx", ctx)
 	ctx.Request.Reset()
 	ctx.Response.Reset()
 
@@ -1321,6 +1330,7 @@ func (sc *serverConn) dispatchHandler(strm *Stream) {
 	ctx.Request.Header.SetProtocolBytes(StringHTTP2)
 
 	strm.handlerRunning = true
+	verifDispatched()
 
 	go func() {
 		defer func() {
@@ -1545,7 +1555,9 @@ func (sc *serverConn) sendPingAndSchedule() {
 func (sc *serverConn) write(fr *FrameHeader) {
 	select {
 	case sc.writer <- fr:
+		verifQueued(false)
 	case <-sc.writeStop:
+		verifQueued(true)
 		ReleaseFrameHeader(fr)
 	}
 }
